@@ -171,6 +171,12 @@ func jwtMutations(rng *rand.Rand, c jwtCfg, claims map[string]interface{}, tok s
 	ms = append(ms, tokMut{"secret-one-bit-off", jwtEncode(c.Alg, c.Alg, k2, claims)})
 	ms = append(ms, tokMut{"secret-hex-text-used-as-key", jwtEncode(c.Alg, c.Alg, []byte(c.Secret), claims)})
 	ms = append(ms, tokMut{"secret-extended", jwtEncode(c.Alg, c.Alg, append(append([]byte(nil), c.key()...), 0x01), claims)})
+	// boundary secret: a token MACed with the EMPTY key names no configured secret.  (HMAC pads
+	// its key with zero bytes, so the empty key and an all-zero secret are the same key: such a
+	// configuration is skipped.)
+	if strings.Trim(string(c.key()), "\x00") != "" {
+		ms = append(ms, tokMut{"secret-empty", jwtEncode(c.Alg, c.Alg, []byte{}, claims)})
+	}
 	// time
 	cp := func() map[string]interface{} {
 		m := map[string]interface{}{}
@@ -212,7 +218,7 @@ func TestVerif_C06_JWT(t *testing.T) {
 	}
 	r := kit.Start(t, "C06")
 	defer r.Finish()
-	r.Rule("JWT: per case a Validator{jwt: alg HS256/384/512, random 1-48 byte secret, optional cookieName} is built through filters.NewSpec+Init; an independent RFC 7515 encoder issues a token (claims with/without exp/nbf/iat, hours away from now, each NumericDate written either as a plain integer or in another legal JSON number form: fraction, '.0', exponent notation with or without sub-second digits, negative exponent; non-ASCII claims) carried as Bearer header or cookie on a random request (methods, escaped paths, bodies) parsed from wire bytes by net/http + httpprot.NewRequest + FetchPayload; valid token must give result \"\"; 17 single mutations (byte flip in each segment, alg header changed, re-MACed under another HS alg with the right secret, alg none, secret off by one bit / hex text / extended, expired or not-yet-valid by hours with the moved claim written once as an integer and once in a non-integer number form, MAC dropped/emptied, token removed, wrong scheme) must each give invalid+401/400; distinct = (alg, carrier, claim class incl. number forms, mutation)")
+	r.Rule("JWT: per case a Validator{jwt: alg HS256/384/512, random 1-48 byte secret, optional cookieName} is built through filters.NewSpec+Init; an independent RFC 7515 encoder issues a token (claims with/without exp/nbf/iat, hours away from now, each NumericDate written either as a plain integer or in another legal JSON number form: fraction, '.0', exponent notation with or without sub-second digits, negative exponent; non-ASCII claims) carried as Bearer header or cookie on a random request (methods, escaped paths, bodies) parsed from wire bytes by net/http + httpprot.NewRequest + FetchPayload; valid token must give result \"\"; 18 single mutations (byte flip in each segment, alg header changed, re-MACed under another HS alg with the right secret, alg none, secret off by one bit / hex text / extended / EMPTY (token MACed with the zero-length key; skipped for an all-zero configured secret, which is the same HMAC key), expired or not-yet-valid by hours with the moved claim written once as an integer and once in a non-integer number form, MAC dropped/emptied, token removed, wrong scheme) must each give invalid+401/400; distinct = (alg, carrier, claim class incl. number forms, mutation)")
 	r.Assume("exp/nbf/iat are positive JSON numbers (RFC 7519 NumericDate, any RFC 8259 number form, all digits kept so the value is exact to the sub-second) at least 2 h away from now; iat never in the future; token never present in both cookie and header; even-length hex secrets; scheme spelled 'Bearer'")
 	if !c06SelfCheck(r) {
 		return
@@ -281,6 +287,7 @@ func TestVerif_C06_JWT(t *testing.T) {
 	r.Require("valid_accepted", 1)
 	r.Require("mutated_rejected", 1)
 	r.Require("mut:alg-changed-and-remaced-with-secret", 1)
+	r.Require("mut:secret-empty", 1)
 	r.Require("mut:expired-by-hours", 1)
 	r.Require("mut:not-before-in-hours", 1)
 	// every non-integer spelling of a NumericDate must have been seen in an accepted token, in an
@@ -381,6 +388,11 @@ func basicMutations(rng *rand.Rand, cfg basicCfg, u basicUser) []credMut {
 		}
 	}
 	add("unknown-user", "nobody"+randAlnum(rng, 3), u.Pass)
+	// boundary credentials: they name no configured user, whatever password comes with them
+	add("empty-user-and-empty-password", "", "")
+	add("empty-user-this-password", "", u.Pass)
+	add("blank-user-this-password", " ", u.Pass)
+	add("blank-user-and-empty-password", " ", "")
 	if n, ok := changeOneChar(rng, u.Name, false); ok {
 		known := false
 		for _, o := range cfg.Users {
@@ -408,7 +420,7 @@ func TestVerif_C06_Basic(t *testing.T) {
 	}
 	r := kit.Start(t, "C06")
 	defer r.Finish()
-	r.Rule("Basic: per case 1-4 users (ASCII / non-ASCII / dotted / e-mail names; passwords: alnum, symbols, non-ASCII, inner spaces, 60 chars, 1 char, containing ':' at start/middle/end/several) are written by an independent htpasswd writer (bcrypt, {SHA}, {SSHA}, plain) to a file (mode FILE) or served from a mocked etcd prefix (mode ETCD); the request 'Authorization: Basic base64(user:password)' (RFC 7617: the password is everything after the FIRST colon) for a configured user must give \"\"; ~18 single mutations of the credentials (one char changed/dropped/appended, ':xyz' appended, case, empty, another user's password/name, unknown user, stored hash as password, no colon, other scheme, broken base64, header removed) must give invalid+401/400; distinct = (mode, hash scheme, password class, mutation)")
+	r.Rule("Basic: per case 1-4 users (ASCII / non-ASCII / dotted / e-mail names; passwords: alnum, symbols, non-ASCII, inner spaces, 60 chars, 1 char, containing ':' at start/middle/end/several) are written by an independent htpasswd writer (bcrypt, {SHA}, {SSHA}, plain) to a file (mode FILE) or served from a mocked etcd prefix (mode ETCD); the request 'Authorization: Basic base64(user:password)' (RFC 7617: the password is everything after the FIRST colon) for a configured user must give \"\"; ~22 single mutations of the credentials (one char changed/dropped/appended, ':xyz' appended, case, empty, another user's password/name, unknown user, boundary credentials naming no configured user: empty or blank user name with an empty password or with the configured user's password, stored hash as password, no colon, other scheme, broken base64, header removed) must give invalid+401/400; distinct = (mode, hash scheme, password class, mutation)")
 	r.Assume("user names contain no ':' and no leading/trailing blanks; passwords are non-empty, < 72 bytes, do not start with '$' or '{' and have no leading/trailing blanks (htpasswd file format limits, not Validator semantics); the credential store is not modified while requests are served")
 	if !c06SelfCheck(r) {
 		return
@@ -466,6 +478,9 @@ func TestVerif_C06_Basic(t *testing.T) {
 	r.Require("pwclass:colon", 1)
 	r.Require("pwclass:nonascii", 1)
 	r.Require("mut:password-colon-suffix-appended", 1)
+	r.Require("mut:empty-user-and-empty-password", 1)
+	r.Require("mut:empty-user-this-password", 1)
+	r.Require("mut:password-emptied", 1)
 }
 
 // ======================================================================================= Signature
@@ -641,6 +656,37 @@ func sigMutations(rng *rand.Rand, c sigCfg, g genReq, sw wireReq) []reqMut {
 	return ms
 }
 
+// foreignCred is a credential (access key id + the secret the client signs with) that is NOT one
+// of the configured access keys of c.
+type foreignCred struct{ name, id, secret string }
+
+// foreignCreds: requests are re-signed, correctly, by a client that holds no configured
+// credential.  Besides ordinary unknown ids the list contains the boundary values of both halves
+// of a credential: the empty / blank access key id and the empty secret, in every combination.  A
+// request that names no configured access key must be refused whatever it is signed with.
+func foreignCreds(rng *rand.Rand, c sigCfg) []foreignCred {
+	own := c.Keys[c.KeyID]
+	fc := []foreignCred{
+		{"resigned-by-unknown-key-id-with-empty-secret", "AKIDunknown" + randAlnum(rng, 3), ""},
+		{"resigned-by-unknown-key-id-with-own-secret", "AKIDunknown" + randAlnum(rng, 3), randAlnum(rng, 12)},
+		{"resigned-by-unknown-key-id-with-known-secret", "AKIDunknown" + randAlnum(rng, 3), own},
+		{"resigned-by-known-key-id-with-empty-secret", c.KeyID, ""},
+		{"resigned-by-empty-key-id-with-empty-secret", "", ""},
+		{"resigned-by-empty-key-id-with-own-secret", "", randAlnum(rng, 12)},
+		{"resigned-by-empty-key-id-with-known-secret", "", own},
+		{"resigned-by-blank-key-id-with-empty-secret", " ", ""},
+		{"resigned-by-blank-key-id-with-known-secret", " ", own},
+	}
+	var out []foreignCred
+	for _, k := range fc {
+		if s, known := c.Keys[k.id]; known && s == k.secret {
+			continue
+		}
+		out = append(out, k)
+	}
+	return out
+}
+
 func changeHex(rng *rand.Rand, s string) (string, bool) {
 	i := rng.Intn(len(s))
 	c := s[i]
@@ -687,7 +733,7 @@ func TestVerif_C06_Signature(t *testing.T) {
 	}
 	r := kit.Start(t, "C06")
 	defer r.Finish()
-	r.Rule("Signature: per case a Validator{signature: AWS literals (60%) or the default ME literals, 1-3 access keys, scopes (AWS: region/service; ME: 0-3), ttl none/1h/90m/2h/24h, excludeBody, ignoredHeaders} is built through filters.NewSpec+Init; a random request (5 methods, 0-4 path segments needing escaping incl. UTF-8, '%', sub-delims raw or escaped, 0-4 query parameters incl. multi-valued and values needing escaping, 0-6 headers incl. multi-valued and values with runs of blanks, Content-Length or chunked bodies 0 B-1 MiB, 4 hosts) is signed by (a) an independent from-the-AWS-documentation SigV4 signer, self-checked against the published AWS example and two cases of the public test suite, and (b) the package's own client-side Sign on a fresh outgoing request; only when both agree the request counts as validly signed and must give \"\" after net/http parsing + httpprot.NewRequest + FetchPayload; then ~25 single mutations (method, path char/segment/slash, query value/param/key, signed header value/removed/extra value/dropped from list, host, date header, body byte appended/flipped/dropped/emptied, signature hex char, key id other/unknown, scope, Authorization removed, re-signed with a wrong secret, re-signed hours outside the TTL in both directions) must give invalid+401/400, and neutral changes (unsigned header added, body re-framed chunked<->Content-Length) must stay accepted; presigned URLs: completeness + expiry + signature char; distinct = (feature set, body class, framing, mutation)")
+	r.Rule("Signature: per case a Validator{signature: AWS literals (60%) or the default ME literals, 1-3 access keys, scopes (AWS: region/service; ME: 0-3), ttl none/1h/90m/2h/24h, excludeBody, ignoredHeaders} is built through filters.NewSpec+Init; a random request (5 methods, 0-4 path segments needing escaping incl. UTF-8, '%', sub-delims raw or escaped, 0-4 query parameters incl. multi-valued and values needing escaping, 0-6 headers incl. multi-valued and values with runs of blanks, Content-Length or chunked bodies 0 B-1 MiB, 4 hosts) is signed by (a) an independent from-the-AWS-documentation SigV4 signer, self-checked against the published AWS example and two cases of the public test suite, and (b) the package's own client-side Sign on a fresh outgoing request; only when both agree the request counts as validly signed and must give \"\" after net/http parsing + httpprot.NewRequest + FetchPayload; then ~25 single mutations (method, path char/segment/slash, query value/param/key, signed header value/removed/extra value/dropped from list, host, date header, body byte appended/flipped/dropped/emptied, signature hex char, key id other/unknown, scope, Authorization removed, re-signed with a wrong secret, re-signed correctly by a credential that is NOT configured: unknown / empty / blank access key id x empty / own / a configured secret, and a configured id with the empty secret, re-signed hours outside the TTL in both directions) must give invalid+401/400, and neutral changes (unsigned header added, body re-framed chunked<->Content-Length) must stay accepted; the Validator spec is written the ordinary way (only accessKeys configured, accessKeyId/accessKeySecret unset); presigned URLs: completeness + expiry + signature char + the same non-configured credentials presigning the link; distinct = (feature set, body class, framing, mutation)")
 	r.Assume("signing time within ttl/6 of now when valid and >= ttl+3h away when expired; no dot-segments or empty path segments; raw '+' never used for a blank in a query; header values without quotes/tabs; Host without an explicit default port; hoisting not configured; disagreement between the two issuers (blank in a query value: '+' vs '%20'; multi-valued query sorted before vs after encoding) is recorded as a diagnostic and such requests are not used for the completeness oracle")
 	if !c06SelfCheck(r) {
 		return
@@ -819,6 +865,16 @@ func TestVerif_C06_Signature(t *testing.T) {
 			s, _ := changeHex(rng, m.RawQuery[i0:])
 			m.RawQuery = m.RawQuery[:i0] + s
 			p.expectReject("signature:mutated-accepted:presign-signature-hex-char-changed", m, nil)
+			// the same link, presigned (correctly) by a client holding no configured credential
+			for _, k := range foreignCreds(rng, cfg) {
+				m := g.W.clone()
+				pp := cfg.params(ts)
+				pp.KeyID, pp.Secret = k.id, k.secret
+				sigV4Presign(&m, pp, expires)
+				r.Count("mut:presign-"+k.name, 1)
+				r.Cover("signature:mut:presign-" + k.name + ":" + cfg.Lit)
+				p.expectReject("signature:mutated-accepted:presign-"+k.name, m, map[string]interface{}{"signed_with": map[string]string{"accessKeyId": k.id, "secret": k.secret}, "configured_ids": keyIDs(cfg)})
+			}
 			v.Close()
 			continue
 		}
@@ -836,17 +892,14 @@ func TestVerif_C06_Signature(t *testing.T) {
 			r.Count("mut:resigned-with-wrong-secret", 1)
 			p.expectReject("signature:mutated-accepted:resigned-with-wrong-secret", m, nil)
 		}
-		for _, k := range []struct{ name, id, secret string }{
-			{"resigned-by-unknown-key-id-with-empty-secret", "AKIDunknown" + randAlnum(rng, 3), ""},
-			{"resigned-by-unknown-key-id-with-own-secret", "AKIDunknown" + randAlnum(rng, 3), randAlnum(rng, 12)},
-			{"resigned-by-known-key-id-with-empty-secret", cfg.KeyID, ""},
-		} {
+		for _, k := range foreignCreds(rng, cfg) {
 			m := unsignedCopy(cfg, sw)
 			pp := cfg.params(ts)
 			pp.KeyID, pp.Secret = k.id, k.secret
 			sigV4Header(&m, pp)
 			r.Count("mut:"+k.name, 1)
-			p.expectReject("signature:mutated-accepted:"+k.name, m, nil)
+			r.Cover("signature:mut:" + k.name + ":" + cfg.Lit)
+			p.expectReject("signature:mutated-accepted:"+k.name, m, map[string]interface{}{"signed_with": map[string]string{"accessKeyId": k.id, "secret": k.secret}, "configured_ids": keyIDs(cfg)})
 		}
 		if cfg.ttl() > 0 {
 			for _, dir := range []int{-1, +1} {
@@ -886,6 +939,20 @@ func TestVerif_C06_Signature(t *testing.T) {
 	r.Require("mut:signed-header-value-changed", 1)
 	r.Require("mut:signed-hours-before-ttl-window", 1)
 	r.Require("mut:query-value-changed", 1)
+	// boundary credentials (empty / blank access key id, empty secret) must have been tried in
+	// the header form and in the presigned form
+	for _, n := range []string{"empty-key-id-with-empty-secret", "empty-key-id-with-known-secret", "blank-key-id-with-empty-secret", "known-key-id-with-empty-secret", "unknown-key-id-with-empty-secret"} {
+		r.Require("mut:resigned-by-"+n, 1)
+		r.Require("mut:presign-resigned-by-"+n, 1)
+	}
+}
+
+func keyIDs(c sigCfg) []string {
+	var ids []string
+	for id := range c.Keys {
+		ids = append(ids, id)
+	}
+	return ids
 }
 
 // ======================================================================================= several methods
@@ -927,7 +994,7 @@ func TestVerif_C06_Multi(t *testing.T) {
 	}
 	r := kit.Start(t, "C06")
 	defer r.Finish()
-	r.Rule("Several methods: Validators combining header rules (values or anchored regexp, single-valued request headers), JWT (cookie or header), Basic (htpasswd file) and signature (header mode) in the 6 combinations whose credentials can coexist in one request; the fully valid request must give \"\"; then, for each configured method in turn, ONLY that method's credential is made invalid (rule header missing/wrong, token MACed with a wrong secret or expired by hours (exp written as an integer or in another JSON number form), wrong password, signature hex char changed) while all others stay valid (the signature is re-computed after the change where it covers the changed header) and the result must be invalid+401/400; distinct = (combination, method invalidated, how)")
+	r.Rule("Several methods: Validators combining header rules (values or anchored regexp, single-valued request headers), JWT (cookie or header), Basic (htpasswd file) and signature (header mode) in the 6 combinations whose credentials can coexist in one request; the fully valid request must give \"\"; then, for each configured method in turn, ONLY that method's credential is made invalid (rule header missing/wrong, token MACed with a wrong secret, with the empty key, or expired by hours (exp written as an integer or in another JSON number form), wrong password or empty user+password, signature hex char changed or request re-signed by the non-configured credential with empty access key id and empty secret) while all others stay valid (the signature is re-computed after the change where it covers the changed header) and the result must be invalid+401/400; distinct = (combination, method invalidated, how)")
 	r.Assume("passwords without ':' and bodies empty when a signature is configured (those inputs belong to the single-method parts); a header rule has either values or an anchored regexp")
 	if !c06SelfCheck(r) {
 		return
@@ -1019,22 +1086,33 @@ func TestVerif_C06_Multi(t *testing.T) {
 				switch bad {
 				case "jwt:wrong-secret":
 					tok = jwtEncode(jc.Alg, jc.Alg, append([]byte("wrong"), jc.key()...), claims)
+				case "jwt:empty-secret":
+					tok = jwtEncode(jc.Alg, jc.Alg, []byte{}, claims)
 				case "jwt:expired":
 					tok = jwtEncode(jc.Alg, jc.Alg, jc.key(), map[string]interface{}{"sub": "x", "exp": mkNumDate(rng, hoursFromNow(rng, -1), genNumForm(rng))})
 				}
 				putToken(&w, jc, jc.Cookie != "", tok, rng)
 			}
 			if has("basic") {
-				pw := u.Pass
-				if bad == "basic:wrong-password" {
+				un, pw := u.Name, u.Pass
+				switch bad {
+				case "basic:wrong-password":
 					pw += "x"
+				case "basic:empty-user-and-empty-password":
+					un, pw = "", ""
 				}
-				w.setHeader("Authorization", basicHeader(u.Name, pw))
+				w.setHeader("Authorization", basicHeader(un, pw))
 			}
 			if has("signature") {
 				agree, _, _, err := signBoth(sc, &w, ts, 0)
 				if err != nil || !agree {
 					return w, false
+				}
+				if bad == "signature:resigned-by-empty-key-id-with-empty-secret" {
+					// correctly signed, but by the credential ("", ""), which is not configured
+					pp := sc.params(ts)
+					pp.KeyID, pp.Secret = "", ""
+					sigV4Header(&w, pp)
 				}
 				if bad == "signature:hex-char-changed" {
 					w = replaceInAuth(w, func(a string) string {
@@ -1064,12 +1142,15 @@ func TestVerif_C06_Multi(t *testing.T) {
 			}
 			if has("jwt") || has("jwtcookie") {
 				invs = append(invs, "jwt:wrong-secret", "jwt:expired")
+				if strings.Trim(string(jc.key()), "\x00") != "" { // HMAC: empty key == all-zero key
+					invs = append(invs, "jwt:empty-secret")
+				}
 			}
 			if has("basic") {
-				invs = append(invs, "basic:wrong-password")
+				invs = append(invs, "basic:wrong-password", "basic:empty-user-and-empty-password")
 			}
 			if has("signature") {
-				invs = append(invs, "signature:hex-char-changed")
+				invs = append(invs, "signature:hex-char-changed", "signature:resigned-by-empty-key-id-with-empty-secret")
 			}
 			for _, bad := range invs {
 				mw, ok := build(bad)
@@ -1078,6 +1159,7 @@ func TestVerif_C06_Multi(t *testing.T) {
 				}
 				r.Cover(fmt.Sprintf("multi:only-invalid(%s):%s", bad, cname))
 				r.Count("only_invalid:"+strings.SplitN(bad, ":", 2)[0], 1)
+				r.Count("only_invalid_how:"+bad, 1)
 				p.expectReject(fmt.Sprintf("multi:mutated-accepted:only-invalid(%s):%s", bad, cname), mw, nil)
 			}
 		}
@@ -1089,6 +1171,9 @@ func TestVerif_C06_Multi(t *testing.T) {
 	r.Require("valid_accepted", 1)
 	for _, m := range []string{"headers", "jwt", "basic", "signature"} {
 		r.Require("only_invalid:"+m, 1)
+	}
+	for _, how := range []string{"signature:resigned-by-empty-key-id-with-empty-secret", "jwt:empty-secret", "basic:empty-user-and-empty-password"} {
+		r.Require("only_invalid_how:"+how, 1)
 	}
 }
 
